@@ -16,7 +16,8 @@ RULE = ("seeded scenario scripts over the three acknowledge types x sync/async a
         "BaseException, timeout, no-result, save failure} x concurrent messages; ~35% of runs crash a worker at a scripted event "
         "(biased to the gaps fn_exit -> save -> ack), restart it and redeliver un-acked messages; every sixth run shuts down with a "
         "wait_tasks_timeout that expires while sync/async bodies are still running; the ordering rule is evaluated "
-        "on the whole history, i.e. on every prefix (= a crash after every event); non-trivial = overlap or a fault fired")
+        "on the whole history, i.e. on every prefix (= a crash after every event); sync tasks with generous timeout labels, 8% of the runs with "
+        "RuntimeWarning / UserWarning as errors; non-trivial = overlap or a fault fired")
 
 KNOBS = {
     "n_msgs": (1, 10),
